@@ -1,8 +1,11 @@
 package main
 
 import (
+	"fmt"
 	"go/token"
 	"go/types"
+	"os"
+	"sort"
 	"strings"
 
 	"golang.org/x/tools/go/ssa"
@@ -12,243 +15,596 @@ func init() {
 	register(&propDef{
 		ID:      "C09",
 		Level:   "other",
-		Explain: "Structural necessary conditions of byte-stream transparency, each quantifying over all segmentations / close orders: (B1) once a buffered reader (bufio.NewReader, or the ReadWriter returned by Hijack) has been placed over a client connection, the raw connection is never used as a copy source — the reader is — and a hijacked ReadWriter is not discarded; (B2) a function that starts copy goroutines reporting on one channel receives as many completions as it started on every path to return (otherwise the deferred Close of both sides cuts the direction still running: a client that half-closes after sending loses the reply); (B3) copy loops write exactly buf[0:n] with n the count returned by the read of the same buffer in the same iteration, and a short or failed write leaves the loop with an error; (B4) when the route asks for the PROXY protocol the header is written before any other byte can reach the upstream, and a buffer filled by a consuming read from the client before the tunnel starts (the captured ClientHello) is written to the upstream, whole, before the copy goroutines start; (B5) every tcp.Handler implementation that dials supports the PROXY header option; (W1) the tcp.conn wrapper forwards Read/Write/Close unchanged. Also: a relay writes the bytes a read returned before it looks at the read error, and Peek lengths stay within the reader buffer (B6). (B7) no SetLinger(n >= 0) on a tunnel connection (Close would discard queued data); Not decided: byte-for-byte delivery over real sockets (run-time behaviour of the kernel and net package).",
+		Explain: "Structural necessary conditions of byte-stream transparency, each quantifying over all segmentations / close orders. The rules are evaluated per TUNNEL: a tcp.Handler implementation of package proxy/tcp that dials (found through the method set, whatever the receiver kind), or the HTTP handler of package proxy that hijacks the client connection (found by what it does, closure or method alike), together with its REGION (the same-package helpers, closures and goroutine bodies it reaches); sites are found by role inside the region, values are compared by object identity across helper parameters, results, captured variables and locally built structs (c09_flow.go). (B1) once a buffered reader (bufio.NewReader, or the ReadWriter returned by Hijack) has been placed over a connection, the raw connection is never used as a copy source afterwards — the reader is — and a hijacked ReadWriter is not discarded; (B2) a tunnel that starts copy goroutines receives as many completions as it started on every path to return, wherever the go statements and the receives live (otherwise the deferred Close of both sides cuts the direction still running: a client that half-closes after sending loses the reply); the obligation is keyed by the tunnel, not by the function that happens to contain the go statements; (B3) copy loops write exactly buf[0:n] with n the count returned by the read of the same buffer in the same iteration, and a short or failed write leaves the loop with an error; a streaming relay writes the bytes a read returned before it looks at the read error; (B4) when the route asks for the PROXY protocol the header is written before any other byte can reach the upstream, and a buffer filled by a consuming read from the client before the tunnel starts (the captured ClientHello) is written to the upstream, whole, before the copy goroutines start; (B5) every tcp.Handler implementation that dials supports the PROXY header option; (W1) the connection wrapper of proxy/tcp (the struct over a net.Conn that implements net.Conn) forwards Read/Write/Close unchanged. (B6) Peek lengths stay within the reader buffer. (B7) no SetLinger(n >= 0) on a tunnel connection (Close would discard queued data); Not decided: byte-for-byte delivery over real sockets (run-time behaviour of the kernel and net package).",
 		Run:     runC09,
 		Trusted: []string{"bufio.Reader returns buffered bytes before reading from the underlying connection", "io.Copy/copyBuffer deliver what Read returns, in order"},
-		Mutants: []mutant{
-			{Name: "abortive close configured on the upstream connection", File: "proxy/tcp/tcp_proxy.go", Old: "\tdefer out.Close()\n", New: "\tdefer out.Close()\n\tif tc, ok := out.(*net.TCPConn); ok {\n\t\ttc.SetLinger(0)\n\t}\n", Expect: "C09.B7"},
-			{Name: "benign: default linger restored explicitly", File: "proxy/tcp/tcp_proxy.go", Old: "\tdefer out.Close()\n", New: "\tdefer out.Close()\n\tif tc, ok := out.(*net.TCPConn); ok {\n\t\ttc.SetLinger(-1)\n\t}\n", Expect: ""},
-
-			{Name: "SNI proxy copies from the raw connection again", File: "proxy/tcp/sni_proxy.go", Old: "go cp(out, tlsReader, t.TxCounter)", New: "go cp(out, in, t.TxCounter)", Expect: "C09.B1"},
-			{Name: "ws handler discards the hijacked reader", File: "proxy/ws_handler.go", Old: "go cp(out, brw)", New: "_ = brw\n\t\tgo cp(out, in)", Expect: "C09.B1"},
-			{Name: "copyBuffer writes one byte less", File: "proxy/tcp/copy_buffer.go", Old: "nw, ew := dst.Write(buf[0:nr])", New: "nw, ew := dst.Write(buf[0 : nr-1])", Expect: "C09.B3"},
-			{Name: "copyBuffer writes the whole buffer", File: "proxy/tcp/copy_buffer.go", Old: "nw, ew := dst.Write(buf[0:nr])", New: "nw, ew := dst.Write(buf)", Expect: "C09.B3"},
-			{Name: "read error examined before the bytes are written", File: "proxy/tcp/copy_buffer.go", Old: "\t\tnr, er := src.Read(buf)\n\t\tif nr > 0 {", New: "\t\tnr, er := src.Read(buf)\n\t\tif er != nil {\n\t\t\tif er != io.EOF {\n\t\t\t\terr = er\n\t\t\t}\n\t\t\tbreak\n\t\t}\n\t\tif nr > 0 {", Expect: "C09.B3"},
-			{Name: "short write ignored", File: "proxy/tcp/copy_buffer.go", Old: "\t\t\tif nr != nw {\n\t\t\t\terr = io.ErrShortWrite\n\t\t\t\tbreak\n\t\t\t}\n", New: "", Expect: "C09.B3"},
-			{Name: "PROXY header after the ClientHello", File: "proxy/tcp/sni_proxy.go", Old: "\t// write the data already read from the connection\n\tn, err := out.Write(data)", New: "\t// write the data already read from the connection\n\tn, err := out.Write(data)\n\tif t.ProxyProto {\n\t\tWriteProxyHeader(out, in)\n\t}", Expect: "C09.B4"},
-			{Name: "captured ClientHello not replayed", File: "proxy/tcp/sni_proxy.go", Old: "\tn, err := out.Write(data)\n", New: "\tn, err := len(data), error(nil)\n", Expect: "C09.B4"},
-			{Name: "captured ClientHello replayed without its record header", File: "proxy/tcp/sni_proxy.go", Old: "\tn, err := out.Write(data)\n", New: "\tn, err := out.Write(data[5:])\n", Expect: "C09.B4"},
-			{Name: "dynamic proxy ignores pxyproto again", File: "proxy/tcp/tcp_dynamic_proxy.go", Old: "\tif t.ProxyProto {\n\t\terr := WriteProxyHeader(out, in)", New: "\tif false {\n\t\terr := WriteProxyHeader(out, in)", Expect: "C09.B"},
-			{Name: "conn.Read reads into a shorter slice", File: "proxy/tcp/server.go", Old: "\treturn c.c.Read(b)", New: "\treturn c.c.Read(b[:len(b)/2])", Expect: "C09.W1"},
-			{Name: "conn.Write drops the error", File: "proxy/tcp/server.go", Old: "\treturn c.c.Write(b)", New: "\tn, _ := c.c.Write(b)\n\treturn n, nil", Expect: "C09.W1"},
-			{Name: "benign: MultiReader as copy source", File: "proxy/tcp/sni_proxy.go", Old: "go cp(out, tlsReader, t.TxCounter)", New: "go cp(out, io.MultiReader(tlsReader), t.TxCounter)", Expect: ""},
-		},
+		Mutants: c09mutants,
 	})
 }
 
-func runC09(c *Ctx) {
-	var handlers []*ssa.Function
-	for _, f := range c.AllFns {
-		if f.Name() == "ServeTCP" && f.Signature.Recv() != nil && f.Pkg == c.spkg("proxy/tcp") && len(c.contactSites(f)) > 0 {
-			handlers = append(handlers, f)
-		}
-	}
-	c.atLeast("C09.B5", "tcp.Handler implementations that dial", len(handlers), 3)
-	var ws *ssa.Function
-	if nw := c.fn("proxy", "newWSHandler"); nw != nil && len(nw.AnonFuncs) > 0 {
-		ws = nw.AnonFuncs[0]
-	}
-	if ws == nil {
-		c.undecided("C09.B1", "proxy.newWSHandler|handler closure", "not found")
-	}
-	tunnels := append([]*ssa.Function{}, handlers...)
-	if ws != nil {
-		tunnels = append(tunnels, ws)
-	}
-	for _, f := range tunnels {
-		runC09B1(c, f)
-		runC09B2(c, f)
-	}
-	runC09B3(c, ws)
-	runC09B3c(c)
-	for _, f := range handlers {
-		runC09B4(c, f)
-		runC09B6(c, f)
-	}
-	runC09W1(c)
-	// B7: no tunnel end is configured to discard unsent data on close
-	for _, f := range c.AllFns {
-		if rootPkg(f) != c.spkg("proxy/tcp") && rootPkg(f) != c.spkg("proxy") {
-			continue
-		}
-		eachInstr(f, func(i ssa.Instruction) {
-			cc := callCommon(i)
-			if cc == nil || !strings.HasSuffix(calleeName(cc), ".SetLinger") {
-				return
-			}
-			sec, isK := constInt(cc.Args[len(cc.Args)-1])
-			c.check("C09.B7", fnKey(f)+"|SetLinger on a tunnel connection", i.Pos(), isK && sec < 0,
-				"SetLinger(n >= 0) makes Close discard data that is still queued (n == 0 sends RST at once): when the other side finishes first, the deferred Close of this connection throws away the tail of the stream — whichever side finishes first must have had all of its data delivered")
-		})
-	}
-	c.ob("C09.B7", "proxy, proxy/tcp|no linger override on tunnel connections", token.NoPos, OK, "scanned for SetLinger calls")
+// ---- tunnels ------------------------------------------------------------------------------------------------------
+
+// c09wsLabel is the recorded construct name of the ROLE "the HTTP handler of package proxy that hijacks the client
+// connection and tunnels it" (known-findings.txt). The handler is found by what it does; the label stays the same
+// when the closure becomes a method or is renamed, so that the recorded defect of that role is recognised.
+const c09wsLabel = "proxy.newWSHandler$1"
+
+type c09relay struct {
+	fn     *ssa.Function
+	rd, wr *ssa.Call
+	sl     *ssa.Slice // the slice expression written, nil when the buffer is written unsliced
 }
 
-// copyStarts: go statements in f (incl. closures called via `go cp(dst, src, ...)`) with (dst, src) arguments.
-type copyStart struct {
-	g        *ssa.Go
-	dst, src ssa.Value
+type c09tunnel struct {
+	c         *Ctx
+	entry     *ssa.Function
+	label     string
+	tcp       bool
+	reg       []*ssa.Function
+	inReg     map[*ssa.Function]bool
+	relays    []c09relay
+	relayRead map[ssa.Instruction]bool
+	unmatched []*ssa.Call // reads of a byte buffer that no write relays
 }
 
-func copyStartsOf(f *ssa.Function) []copyStart {
-	var out []copyStart
-	eachInstr(f, func(i ssa.Instruction) {
-		g, ok := i.(*ssa.Go)
-		if !ok || len(g.Call.Args) < 2 {
-			return
-		}
-		out = append(out, copyStart{g, stripIface(g.Call.Args[0]), stripIface(g.Call.Args[1])})
-	})
-	return out
-}
-
-func runC09B1(c *Ctx, f *ssa.Function) {
-	// buffered readers over a connection
-	type wrap struct {
-		conn   ssa.Value
-		reader ssa.Value
-		pos    token.Pos
-		what   string
+func c09newTunnel(c *Ctx, entry *ssa.Function, label string, tcp bool) *c09tunnel {
+	t := &c09tunnel{c: c, entry: entry, label: label, tcp: tcp, inReg: map[*ssa.Function]bool{}, relayRead: map[ssa.Instruction]bool{}}
+	t.reg = c.regionDepth(6, entry)
+	for _, f := range t.reg {
+		t.inReg[f] = true
+		rs, un := c09relaysOf(f)
+		t.relays = append(t.relays, rs...)
+		t.unmatched = append(t.unmatched, un...)
 	}
-	var wraps []wrap
+	for _, r := range t.relays {
+		t.relayRead[r.rd] = true
+	}
+	return t
+}
+
+func c09isByteSlice(t types.Type) bool {
+	s, ok := t.Underlying().(*types.Slice)
+	if !ok {
+		return false
+	}
+	b, ok := s.Elem().Underlying().(*types.Basic)
+	return ok && b.Kind() == types.Uint8
+}
+
+// c09relaysOf: the (Read, Write) pairs of f in which the Write writes (a slice of) the buffer the Read filled.
+func c09relaysOf(f *ssa.Function) (relays []c09relay, unmatched []*ssa.Call) {
+	type rdSite struct {
+		call  *ssa.Call
+		roots map[c09key]ssa.Value
+		used  bool
+	}
+	var reads []*rdSite
 	eachInstr(f, func(i ssa.Instruction) {
 		call, ok := i.(*ssa.Call)
 		if !ok {
 			return
 		}
+		if _, args, ok := c09ioCall(&call.Call, "Read"); ok && len(args) == 1 && c09isByteSlice(args[0].Type()) {
+			reads = append(reads, &rdSite{call: call, roots: c09roots(args[0])})
+		}
+	})
+	if len(reads) == 0 {
+		return nil, nil
+	}
+	eachInstr(f, func(i ssa.Instruction) {
+		call, ok := i.(*ssa.Call)
+		if !ok {
+			return
+		}
+		_, args, ok := c09ioCall(&call.Call, "Write")
+		if !ok || len(args) != 1 || !c09isByteSlice(args[0].Type()) {
+			return
+		}
+		// the buffer itself, or a slice of it (make([]byte, K) is itself a Slice of an array in SSA: try the value first)
+		match := func(buf ssa.Value) *rdSite {
+			br := c09roots(buf)
+			var hit *rdSite
+			for _, r := range reads {
+				if c09meet(br, r.roots) && (hit == nil || dominatesInstr(r.call, call)) {
+					hit = r
+				}
+			}
+			return hit
+		}
+		var sl *ssa.Slice
+		hit := match(args[0])
+		if hit == nil {
+			if sl, _ = args[0].(*ssa.Slice); sl != nil {
+				hit = match(sl.X)
+			}
+		}
+		if hit == nil {
+			return
+		}
+		hit.used = true
+		relays = append(relays, c09relay{fn: f, rd: hit.call, wr: call, sl: sl})
+	})
+	for _, r := range reads {
+		if !r.used {
+			unmatched = append(unmatched, r.call)
+		}
+	}
+	return relays, unmatched
+}
+
+// c09recvLabel: "(*proxy/tcp.Proxy).ServeTCP" for a method of Proxy, whatever the receiver kind.
+func c09recvLabel(f *ssa.Function) string {
+	if f.Signature.Recv() != nil {
+		t := f.Signature.Recv().Type()
+		if p, ok := t.(*types.Pointer); ok {
+			t = p.Elem()
+		}
+		if n, ok := types.Unalias(t).(*types.Named); ok && n.Obj().Pkg() != nil {
+			pk := strings.TrimPrefix(strings.TrimPrefix(n.Obj().Pkg().Path(), repoMod), "/")
+			if pk == "" {
+				pk = "main"
+			}
+			return "(*" + pk + "." + n.Obj().Name() + ")." + f.Name()
+		}
+	}
+	return fnKey(f)
+}
+
+// c09handlers: the declared ServeTCP methods of the types of proxy/tcp that implement tcp.Handler and dial.
+func c09handlers(c *Ctx) (fns []*ssa.Function, nTypes int) {
+	sp := c.spkg("proxy/tcp")
+	if sp == nil {
+		return nil, 0
+	}
+	var names []string
+	for n, m := range sp.Members {
+		if _, ok := m.(*ssa.Type); ok {
+			names = append(names, n)
+		}
+	}
+	sort.Strings(names)
+	seen := map[*ssa.Function]bool{}
+	for _, n := range names {
+		nt := sp.Members[n].(*ssa.Type).Type()
+		if _, isIface := nt.Underlying().(*types.Interface); isIface {
+			continue
+		}
+		for _, tt := range []types.Type{nt, types.NewPointer(nt)} {
+			sel := c.Prog.MethodSets.MethodSet(tt).Lookup(sp.Pkg, "ServeTCP")
+			if sel == nil {
+				continue
+			}
+			f := c.Prog.MethodValue(sel)
+			if f != nil && f.Synthetic != "" {
+				// promoted through an embedded field: the declared method
+				if obj, ok := sel.Obj().(*types.Func); ok {
+					f = c.Prog.FuncValue(obj)
+				}
+			}
+			if f == nil || len(f.Blocks) == 0 || !isRepoFn(f) || len(c.contactSites(f)) == 0 {
+				continue
+			}
+			nTypes++
+			if !seen[f] {
+				seen[f] = true
+				fns = append(fns, f)
+			}
+			break
+		}
+	}
+	return fns, nTypes
+}
+
+func c09isHijack(i ssa.Instruction) bool {
+	call, ok := i.(*ssa.Call)
+	return ok && call.Call.IsInvoke() && call.Call.Method.Name() == "Hijack"
+}
+
+// c09hijackers: the innermost functions of the repository with the signature of an HTTP handler whose region hijacks
+// the client connection.
+func c09hijackers(c *Ctx) []*ssa.Function {
+	isHandlerSig := func(f *ssa.Function) bool {
+		ps := f.Signature.Params()
+		return ps.Len() == 2 && typeStr(ps.At(0).Type()) == "net/http.ResponseWriter" && typeStr(ps.At(1).Type()) == "*net/http.Request"
+	}
+	type cand struct {
+		f   *ssa.Function
+		reg map[*ssa.Function]bool
+	}
+	var cands []cand
+	for _, f := range c.fnsWhere("", isHandlerSig) {
+		reg := map[*ssa.Function]bool{}
+		hj := false
+		for _, g := range c.regionDepth(6, f) {
+			reg[g] = true
+			eachInstr(g, func(i ssa.Instruction) {
+				if c09isHijack(i) {
+					hj = true
+				}
+			})
+		}
+		if hj {
+			cands = append(cands, cand{f, reg})
+		}
+	}
+	var out []*ssa.Function
+	for _, x := range cands {
+		outer := false
+		for _, y := range cands {
+			if y.f != x.f && x.reg[y.f] && !y.reg[x.f] {
+				outer = true
+			}
+		}
+		if !outer {
+			out = append(out, x.f)
+		}
+	}
+	return out
+}
+
+func runC09(c *Ctx) {
+	handlers, nTypes := c09handlers(c)
+	c.atLeast("C09.B5", "tcp.Handler implementations that dial", nTypes, 3)
+	var tunnels []*c09tunnel
+	for _, f := range handlers {
+		tunnels = append(tunnels, c09newTunnel(c, f, c09recvLabel(f), true))
+	}
+	ws := c09hijackers(c)
+	if len(ws) == 0 {
+		c.undecided("C09.B1", "proxy.newWSHandler|handler closure", "no HTTP handler of package proxy hijacks the client connection: the websocket tunnel is not found")
+	}
+	for _, f := range ws {
+		label := c09recvLabel(f)
+		if len(ws) == 1 {
+			label = c09wsLabel
+		}
+		tunnels = append(tunnels, c09newTunnel(c, f, label, false))
+	}
+	nJoin := 0
+	for _, t := range tunnels {
+		runC09B1(t)
+		if runC09B2(t) {
+			nJoin++
+		}
+	}
+	if len(tunnels) > 0 {
+		c.atLeast("C09.B2", "tunnels that start copy goroutines", nJoin, 1)
+	}
+	runC09B3(c, tunnels)
+	for _, t := range tunnels {
+		if t.tcp {
+			runC09B4(t)
+		}
+		runC09B6(t)
+	}
+	runC09W1(c)
+	runC09B7(c, tunnels)
+	if os.Getenv("C09_DEBUG") != "" {
+		for _, o := range c.Obs {
+			fmt.Fprintf(os.Stderr, "OB %-10s %s [%s] at %s\n", o.Status, o.Rule, o.Construct, o.Pos)
+		}
+	}
+}
+
+// ---- copies -------------------------------------------------------------------------------------------------------
+
+var c09copyFns = map[string]bool{"io.Copy": true, "io.CopyBuffer": true, "io.CopyN": true}
+
+// isCopyInstr: the instruction moves a stream: io.Copy and friends, WriteTo/ReadFrom, or the Read of a relay.
+func (t *c09tunnel) isCopyInstr(i ssa.Instruction) bool {
+	call, ok := i.(*ssa.Call)
+	if !ok {
+		return false
+	}
+	if t.relayRead[i] || c09copyFns[calleeName(&call.Call)] {
+		return true
+	}
+	if _, _, ok := c09ioCall(&call.Call, "WriteTo"); ok {
+		return true
+	}
+	_, _, ok = c09ioCall(&call.Call, "ReadFrom")
+	return ok
+}
+
+type c09src struct {
+	at ssa.Instruction
+	v  ssa.Value
+}
+
+// copySources: the values streams are copied FROM anywhere in the tunnel's region.
+func (t *c09tunnel) copySources() []c09src {
+	var out []c09src
+	eachInstrOf(t.reg, func(f *ssa.Function, i ssa.Instruction) {
+		call, ok := i.(*ssa.Call)
+		if !ok {
+			return
+		}
 		switch {
-		case calleeName(&call.Call) == "bufio.NewReader" || calleeName(&call.Call) == "bufio.NewReaderSize":
-			wraps = append(wraps, wrap{stripIface(call.Call.Args[0]), call, call.Pos(), "bufio.NewReader"})
-		case call.Call.IsInvoke() && call.Call.Method.Name() == "Hijack":
-			var conn, rw ssa.Value
+		case c09copyFns[calleeName(&call.Call)] && len(call.Call.Args) >= 2:
+			out = append(out, c09src{i, call.Call.Args[1]})
+		case t.relayRead[i]:
+			recv, _, _ := c09ioCall(&call.Call, "Read")
+			out = append(out, c09src{i, recv})
+		default:
+			if recv, _, ok := c09ioCall(&call.Call, "WriteTo"); ok {
+				out = append(out, c09src{i, recv})
+			} else if _, args, ok := c09ioCall(&call.Call, "ReadFrom"); ok && len(args) == 1 {
+				out = append(out, c09src{i, args[0]})
+			}
+		}
+	})
+	return out
+}
+
+// goTargets: the repository functions a go statement may start.
+func c09goTargets(g *ssa.Go) []*ssa.Function {
+	fns := funcsOf(g.Call.Value)
+	if sc := g.Call.StaticCallee(); sc != nil && isRepoFn(sc) {
+		fns = append(fns, unwrap(sc))
+	}
+	return fns
+}
+
+// isCopyStart: a go statement whose goroutine copies a stream.
+func (t *c09tunnel) isCopyStart(i ssa.Instruction) bool {
+	g, ok := i.(*ssa.Go)
+	if !ok {
+		return false
+	}
+	for _, fn := range c09goTargets(g) {
+		if mayExec(fn, t.isCopyInstr, 0) {
+			return true
+		}
+	}
+	return false
+}
+
+// ---- B1 -----------------------------------------------------------------------------------------------------------
+
+func runC09B1(t *c09tunnel) {
+	c := t.c
+	type wrap struct {
+		at       *ssa.Call
+		conn     ssa.Value
+		isReader func(ssa.Value) bool
+		what     string
+		noReader bool
+	}
+	var wraps []wrap
+	eachInstrOf(t.reg, func(f *ssa.Function, i ssa.Instruction) {
+		call, ok := i.(*ssa.Call)
+		if !ok {
+			return
+		}
+		n := calleeName(&call.Call)
+		switch {
+		case n == "bufio.NewReader" || n == "bufio.NewReaderSize":
+			// only readers over a connection
+			w := c09newWalker()
+			w.through = true
+			w.walk(call.Call.Args[0])
+			over := c09connLike(stripIface(call.Call.Args[0]).Type())
+			for _, rv := range w.roots {
+				if c09connLike(rv.Type()) {
+					over = true
+				}
+			}
+			if over {
+				wraps = append(wraps, wrap{at: call, conn: call.Call.Args[0], isReader: func(v ssa.Value) bool { return v == ssa.Value(call) }, what: "bufio.NewReader"})
+			}
+		case c09isHijack(i):
+			var conn ssa.Value
+			hasRW := false
 			for _, r := range *call.Referrers() {
 				if e, ok := r.(*ssa.Extract); ok {
 					if e.Index == 0 {
 						conn = e
 					}
 					if e.Index == 1 {
-						rw = e
+						hasRW = true
 					}
 				}
 			}
-			wraps = append(wraps, wrap{conn, rw, call.Pos(), "Hijack"})
+			wraps = append(wraps, wrap{at: call, conn: conn, noReader: !hasRW, what: "Hijack",
+				isReader: func(v ssa.Value) bool {
+					e, ok := v.(*ssa.Extract)
+					return ok && e.Tuple == ssa.Value(call) && e.Index == 1
+				}})
 		}
 	})
 	if len(wraps) == 0 {
 		return
 	}
-	starts := copyStartsOf(f)
+	srcs := t.copySources()
 	for _, w := range wraps {
-		key := fnKey(f) + "|" + w.what + " over the client connection"
-		if w.reader == nil {
-			c.check("C09.B1", key, w.pos, false, "the *bufio.ReadWriter returned by Hijack is discarded: bytes the client sent right after its handshake request sit in its buffer and never reach the upstream")
+		key := t.label + "|" + w.what + " over the client connection"
+		if w.noReader {
+			c.check("C09.B1", key, w.at.Pos(), false, "the *bufio.ReadWriter returned by Hijack is discarded: bytes the client sent right after its handshake request sit in its buffer and never reach the upstream")
 			continue
 		}
+		var connRoots map[c09key]ssa.Value
+		if w.conn != nil {
+			cw := c09newWalker()
+			cw.through = true // a reader over a reader over the connection
+			cw.walk(w.conn)
+			connRoots = cw.roots
+		}
+		// a merge takes the raw connection only on paths that pass the place where the reader is made
+		after := reachableFrom([]*ssa.BasicBlock{w.at.Block()}, nil)
+		after[w.at.Block()] = true
 		rawUsed, readerUsed := false, false
-		for _, s := range starts {
-			if w.conn != nil && s.src == w.conn {
-				rawUsed = true
+		for _, s := range srcs {
+			if !c09mayRunAfter(w.at, s.at, 0) {
+				continue // copied (synchronously) before the reader existed
 			}
-			if s.src == w.reader || derives(s.src, func(v ssa.Value) bool { return v == w.reader }) {
+			sw := c09newWalker()
+			sw.through = true
+			sw.stop = w.isReader
+			sw.edgeOK = func(p *ssa.Phi, k int) bool {
+				return p.Parent() != w.at.Parent() || after[p.Block().Preds[k]]
+			}
+			sw.walk(s.v)
+			if sw.hit {
 				readerUsed = true
 			}
+			if c09meet(sw.roots, connRoots) {
+				rawUsed = true
+			}
 		}
-		// also synchronous copies (io.Copy / copy helpers called directly)
-		eachInstr(f, func(i ssa.Instruction) {
-			call, ok := i.(*ssa.Call)
-			if !ok {
-				return
-			}
-			n := calleeName(&call.Call)
-			if n == "io.Copy" || n == "io.CopyBuffer" || n == "io.CopyN" {
-				src := stripIface(call.Call.Args[1])
-				if w.conn != nil && src == w.conn {
-					rawUsed = true
-				}
-				if src == w.reader {
-					readerUsed = true
-				}
-			}
-		})
-		c.check("C09.B1", key, w.pos, !rawUsed && readerUsed,
+		c.check("C09.B1", key, w.at.Pos(), !rawUsed && readerUsed,
 			"after a buffered reader has read from the client connection the raw connection must not be the copy source (the reader must be): whatever the reader buffered beyond what was parsed — data sent in the same segment as the ClientHello or the handshake request — would be dropped")
 	}
 }
 
-func runC09B2(c *Ctx, f *ssa.Function) {
-	starts := copyStartsOf(f)
-	if len(starts) < 2 {
-		return
+// c09mayRunAfter: can instruction s execute after w has? Same function: a CFG path from w to s. Another function: yes,
+// unless it is a helper that is only called synchronously from places of w's function that w cannot reach (a handshake
+// relayed by a helper before the buffered reader is made). Goroutines and anything unresolved count as "after".
+func c09mayRunAfter(w, s ssa.Instruction, depth int) bool {
+	if s.Parent() == w.Parent() {
+		return canReach(w, s)
 	}
-	// the completion channel: the one the started closures send on
-	var ch ssa.Value
-	for _, s := range starts {
-		var fn *ssa.Function
-		switch v := s.g.Call.Value.(type) {
-		case *ssa.MakeClosure:
-			fn = v.Fn.(*ssa.Function)
-		case *ssa.Function:
-			fn = v
+	g := s.Parent()
+	sites := gSites[g]
+	if depth > 3 || g == nil || len(sites) == 0 || !onlyStaticallyCalled(g) {
+		return true
+	}
+	for _, site := range sites {
+		if _, isCall := site.(*ssa.Call); !isCall {
+			return true
 		}
-		if fn == nil {
-			continue
+		if c09mayRunAfter(w, site, depth+1) {
+			return true
 		}
-		eachInstr(fn, func(i ssa.Instruction) {
-			if snd, ok := i.(*ssa.Send); ok {
-				// free variable -> binding
-				if fv, ok := stripLoad(snd.Chan).(*ssa.FreeVar); ok {
-					if mc, ok := s.g.Call.Value.(*ssa.MakeClosure); ok {
-						for k, x := range fn.FreeVars {
-							if x == fv {
-								ch = mc.Bindings[k]
-							}
-						}
+	}
+	return false
+}
+
+// ---- B2 -----------------------------------------------------------------------------------------------------------
+
+type c09join struct {
+	t         *c09tunnel
+	sendRoots map[c09key]ssa.Value
+	hasWG     bool
+	memo      map[*ssa.Function][2]int
+	busy      map[*ssa.Function]bool
+	lastGo    *ssa.Go
+}
+
+func c09isWait(cc *ssa.CallCommon) bool {
+	n := calleeName(cc)
+	return n == "(*sync.WaitGroup).Wait" || strings.HasSuffix(n, "errgroup.Group).Wait")
+}
+
+// collect: the channels the goroutine started by g reports on.
+func (j *c09join) collect(g *ssa.Go) {
+	if j.lastGo == nil || g.Pos() > j.lastGo.Pos() {
+		j.lastGo = g
+	}
+	for _, fn := range c09goTargets(g) {
+		for _, h := range withAnon(fn) {
+			eachInstr(h, func(i ssa.Instruction) {
+				if snd, ok := i.(*ssa.Send); ok {
+					for k, v := range c09roots(snd.Chan) {
+						j.sendRoots[k] = v
 					}
 				}
+				if cc := callCommon(i); cc != nil && calleeName(cc) == "(*sync.WaitGroup).Done" {
+					j.hasWG = true
+				}
+			})
+		}
+	}
+}
+
+func (j *c09join) isCompletionChan(ch ssa.Value) bool {
+	return c09meet(c09roots(ch), j.sendRoots)
+}
+
+// worst: over the paths of f from entry to return, the one that leaves most started copy goroutines un-awaited:
+// (starts, completions received). Calls of repository helpers contribute their own worst path.
+func (j *c09join) worst(f *ssa.Function, depth int) (int, int) {
+	if f == nil || len(f.Blocks) == 0 || depth > 4 || j.busy[f] {
+		return 0, 0
+	}
+	if m, ok := j.memo[f]; ok {
+		return m[0], m[1]
+	}
+	j.busy[f] = true
+	defer delete(j.busy, f)
+	deferWait := false
+	eachInstr(f, func(i ssa.Instruction) {
+		if d, ok := i.(*ssa.Defer); ok && c09isWait(&d.Call) {
+			deferWait = true
+		}
+	})
+	// loops with a constant trip count (for i := 0; i < K; i++ / for range K): the body runs K times, the path that
+	// skips the body does not exist; everything received in the body counts K-fold and the body is walked once
+	counted := c09countedLoops(f)
+	weight := func(b *ssa.BasicBlock) int {
+		for _, cl := range counted {
+			if cl.body[b] && (b != cl.head || cl.latch != nil) {
+				return cl.k
 			}
-		})
-	}
-	if ch == nil {
-		c.undecided("C09.B2", fnKey(f)+"|completion channel", "copy goroutines do not report on a channel")
-		return
-	}
-	isRecv := func(i ssa.Instruction) bool {
-		u, ok := i.(*ssa.UnOp)
-		if !ok || u.Op != token.ARROW {
-			return false
 		}
-		x := u.X
-		if l, ok := x.(*ssa.UnOp); ok && l.Op == token.MUL {
-			x = l.X
+		return 1
+	}
+	latches := map[*ssa.BasicBlock]*c09loop{}
+	for _, cl := range counted {
+		if cl.latch != nil {
+			latches[cl.latch] = cl
 		}
-		return x == ch || u.X == ch
 	}
-	// minimum number of receives on any path from the last go statement to a return
-	last := starts[len(starts)-1].g
-	type state struct {
-		b   *ssa.BasicBlock
-		idx int
-	}
-	best := map[*ssa.BasicBlock]int{}
-	minRecv := -1
 	type item struct {
-		s state
-		n int
+		b       *ssa.BasicBlock
+		s, r    int
+		viaBack bool
 	}
-	queue := []item{{state{last.Block(), instrIndex(last) + 1}, 0}}
-	for len(queue) > 0 {
-		it := queue[0]
-		queue = queue[1:]
-		n := it.n
+	type bkey struct {
+		b       *ssa.BasicBlock
+		viaBack bool
+	}
+	best := map[bkey][2]int{} // (outstanding, starts) of the worst state a block was entered with
+	resS, resR, have := 0, 0, false
+	stack := []item{{f.Blocks[0], 0, 0, false}}
+	for len(stack) > 0 {
+		it := stack[len(stack)-1]
+		stack = stack[:len(stack)-1]
+		s, r := it.s, it.r
 		returned := false
-		for k := it.s.idx; k < len(it.s.b.Instrs); k++ {
-			in := it.s.b.Instrs[k]
-			if isRecv(in) {
-				n++
-			}
-			if _, ok := in.(*ssa.Return); ok {
-				if minRecv < 0 || n < minRecv {
-					minRecv = n
+		wt := weight(it.b)
+		for _, in := range it.b.Instrs {
+			switch x := in.(type) {
+			case *ssa.Go:
+				if j.t.isCopyStart(x) {
+					j.collect(x)
+					if s < 8 {
+						s++
+					}
+				}
+			case *ssa.UnOp:
+				if x.Op == token.ARROW && j.isCompletionChan(x.X) {
+					r += wt
+				}
+			case *ssa.Select:
+				for _, st := range x.States {
+					if st.Dir == types.RecvOnly && j.isCompletionChan(st.Chan) {
+						r += wt
+						break
+					}
+				}
+			case *ssa.Call:
+				if c09isWait(&x.Call) {
+					r = s
+				} else if sc := c09bodyOf(&x.Call); sc != nil {
+					hs, hr := j.worst(unwrap(sc), depth+1)
+					s, r = s+hs, r+hr
+				}
+			case *ssa.Return:
+				if deferWait {
+					r = s
+				}
+				if !have || s-r > resS-resR || (s-r == resS-resR && s > resS) {
+					resS, resR, have = s, r, true
 				}
 				returned = true
 			}
@@ -256,20 +612,195 @@ func runC09B2(c *Ctx, f *ssa.Function) {
 		if returned {
 			continue
 		}
-		for _, s := range it.s.b.Succs {
-			if old, seen := best[s]; seen && old <= n {
+		cl := counted[it.b]
+		if cl != nil && cl.latch != nil {
+			cl = nil // rotated loop: the test sits in the latch
+		}
+		for k, nb := range it.b.Succs {
+			if cl != nil && cl.body[nb] == it.viaBack {
+				continue // first entry: into the body only; back from the body: out of the loop only
+			}
+			if rl := latches[it.b]; rl != nil && nb == rl.head {
+				continue // rotated loop: the body was walked once with K-fold weight
+			}
+			if truth, isK := c09constCond(it.b); isK && (k == 0) != truth {
+				continue // `0 < 2` guarding a rotated loop: the other edge does not exist
+			}
+			via := false
+			if h := counted[nb]; h != nil && h.latch == nil && h.body[it.b] {
+				via = true
+			}
+			bk := bkey{nb, via}
+			if old, ok := best[bk]; ok && (old[0] > s-r || (old[0] == s-r && old[1] >= s)) {
 				continue
 			}
-			best[s] = n
-			queue = append(queue, item{state{s, 0}, n})
+			best[bk] = [2]int{s - r, s}
+			stack = append(stack, item{nb, s, r, via})
 		}
 	}
-	chName := "errc"
-	if a, ok := ch.(*ssa.Alloc); ok && a.Comment != "" {
-		chName = a.Comment
+	j.memo[f] = [2]int{resS, resR}
+	return resS, resR
+}
+
+type c09loop struct {
+	head  *ssa.BasicBlock
+	latch *ssa.BasicBlock // rotated loop (for range K): the block that tests i+1 < K and jumps back to head
+	body  map[*ssa.BasicBlock]bool
+	k     int
+}
+
+// c09constCond: block b ends in an If on a comparison of two integer constants; its value.
+func c09constCond(b *ssa.BasicBlock) (truth, ok bool) {
+	if len(b.Instrs) == 0 {
+		return false, false
 	}
-	c.check("C09.B2", fnKey(f)+"|chan_"+chName, last.Pos(), minRecv >= len(starts),
-		"the function starts "+itoa(len(starts))+" copy goroutines but a path to return receives only "+itoa(minRecv)+" completion(s); the deferred Close of both connections then cuts the direction still running — a client that half-closes after sending (shutdown(SHUT_WR)) ends client->upstream first and never receives the reply")
+	iff, isIf := b.Instrs[len(b.Instrs)-1].(*ssa.If)
+	if !isIf {
+		return false, false
+	}
+	cmp, isB := iff.Cond.(*ssa.BinOp)
+	if !isB {
+		return false, false
+	}
+	x, okX := constInt(cmp.X)
+	y, okY := constInt(cmp.Y)
+	if !okX || !okY {
+		return false, false
+	}
+	switch cmp.Op {
+	case token.LSS:
+		return x < y, true
+	case token.LEQ:
+		return x <= y, true
+	case token.GTR:
+		return x > y, true
+	case token.GEQ:
+		return x >= y, true
+	case token.EQL:
+		return x == y, true
+	case token.NEQ:
+		return x != y, true
+	}
+	return false, false
+}
+
+// c09countedLoops: the natural loops of f with a constant trip count K (1..8) and an induction variable that starts
+// at 0 and is incremented by 1: `for i := 0; i < K; i++` (test in the header) and `for range K` (rotated by the SSA
+// builder: the header is the body, the latch tests i+1 < K).
+func c09countedLoops(f *ssa.Function) map[*ssa.BasicBlock]*c09loop {
+	out := map[*ssa.BasicBlock]*c09loop{}
+	lastIf := func(b *ssa.BasicBlock) *ssa.BinOp {
+		if len(b.Instrs) == 0 || len(b.Succs) != 2 {
+			return nil
+		}
+		iff, ok := b.Instrs[len(b.Instrs)-1].(*ssa.If)
+		if !ok {
+			return nil
+		}
+		cmp, ok := iff.Cond.(*ssa.BinOp)
+		if !ok || cmp.Op != token.LSS {
+			return nil
+		}
+		if k, isK := constInt(cmp.Y); !isK || k < 1 || k > 8 {
+			return nil
+		}
+		return cmp
+	}
+	// induction: phi in h with edges {0, phi+1}; returns the increment
+	induction := func(phi *ssa.Phi, h *ssa.BasicBlock) ssa.Value {
+		if phi.Block() != h || len(phi.Edges) != 2 {
+			return nil
+		}
+		var inc ssa.Value
+		init := false
+		for _, e := range phi.Edges {
+			if isZero(e) {
+				init = true
+			} else if b, ok := e.(*ssa.BinOp); ok && b.Op == token.ADD && b.X == ssa.Value(phi) {
+				if one, ok := constInt(b.Y); ok && one == 1 {
+					inc = b
+				}
+			}
+		}
+		if !init {
+			return nil
+		}
+		return inc
+	}
+	for _, l := range loopsOf(f) {
+		h := l.Head
+		if cmp := lastIf(h); cmp != nil {
+			phi, isPhi := cmp.X.(*ssa.Phi)
+			if isPhi && induction(phi, h) != nil && l.Body[h.Succs[0]] && !l.Body[h.Succs[1]] {
+				k, _ := constInt(cmp.Y)
+				out[h] = &c09loop{head: h, body: l.Body, k: int(k)}
+				continue
+			}
+		}
+		// rotated: a single latch in the body tests inc < K, true edge back to the header
+		var latch *ssa.BasicBlock
+		nBack := 0
+		for _, p := range h.Preds {
+			if l.Body[p] {
+				nBack++
+				latch = p
+			}
+		}
+		if nBack != 1 {
+			continue
+		}
+		cmp := lastIf(latch)
+		if cmp == nil || latch.Succs[0] != h || l.Body[latch.Succs[1]] {
+			continue
+		}
+		inc, ok := cmp.X.(*ssa.BinOp)
+		if !ok {
+			continue
+		}
+		phi, isPhi := inc.X.(*ssa.Phi)
+		if !isPhi || induction(phi, h) != ssa.Value(inc) {
+			continue
+		}
+		// no other way out of the loop than the latch (a break would leave early)
+		exits := 0
+		for b := range l.Body {
+			for _, sc := range b.Succs {
+				if !l.Body[sc] {
+					exits++
+				}
+			}
+		}
+		if exits != 1 {
+			continue
+		}
+		k, _ := constInt(cmp.Y)
+		out[h] = &c09loop{head: h, latch: latch, body: l.Body, k: int(k)}
+	}
+	return out
+}
+
+// runC09B2 reports whether the tunnel starts copy goroutines (the rule applied).
+func runC09B2(t *c09tunnel) bool {
+	c := t.c
+	j := &c09join{t: t, sendRoots: map[c09key]ssa.Value{}, memo: map[*ssa.Function][2]int{}, busy: map[*ssa.Function]bool{}}
+	// first pass: learn the completion channels of all copy goroutines of the region, second pass: count
+	eachInstrOf(t.reg, func(f *ssa.Function, i ssa.Instruction) {
+		if g, ok := i.(*ssa.Go); ok && t.isCopyStart(g) {
+			j.collect(g)
+		}
+	})
+	s, r := j.worst(t.entry, 0)
+	if s < 2 || j.lastGo == nil {
+		return false
+	}
+	if len(j.sendRoots) == 0 && !j.hasWG {
+		c.undecided("C09.B2", t.label+"|completion channel", "copy goroutines do not report on a channel")
+		return true
+	}
+	// "errc" names the role (the completion channel of the tunnel's copy goroutines), not the variable
+	c.check("C09.B2", t.label+"|chan_errc", j.lastGo.Pos(), r >= s,
+		"the tunnel starts "+itoa(s)+" copy goroutines but a path to return receives only "+itoa(r)+" completion(s); the deferred Close of both connections then cuts the direction still running — a client that half-closes after sending (shutdown(SHUT_WR)) ends client->upstream first and never receives the reply")
+	return true
 }
 
 func itoa(n int) string {
@@ -280,278 +811,4 @@ func itoa(n int) string {
 		return string(rune('0' + n))
 	}
 	return itoa(n/10) + string(rune('0'+n%10))
-}
-
-// runC09B3: copy loops.
-func runC09B3(c *Ctx, ws *ssa.Function) {
-	cb := c.fn("proxy/tcp", "copyBuffer")
-	if !c.need("C09.B3", cb, "tcp.copyBuffer") {
-		return
-	}
-	checkRelay := func(f *ssa.Function, name string) {
-		n := 0
-		eachInstr(f, func(i ssa.Instruction) {
-			call, ok := i.(*ssa.Call)
-			if !ok || !call.Call.IsInvoke() || call.Call.Method.Name() != "Write" || len(call.Call.Args) != 1 {
-				return
-			}
-			arg := call.Call.Args[0]
-			// only relays: the written bytes come from a Read in the same function
-			sl, isSlice := arg.(*ssa.Slice)
-			var buf ssa.Value = arg
-			if isSlice {
-				buf = sl.X
-			}
-			var rd *ssa.Call
-			eachInstr(f, func(j ssa.Instruction) {
-				if rc, ok := j.(*ssa.Call); ok && rc.Call.IsInvoke() && rc.Call.Method.Name() == "Read" && len(rc.Call.Args) == 1 {
-					if rc.Call.Args[0] == buf || (isSlice && rc.Call.Args[0] == sl.X) {
-						rd = rc
-					}
-				}
-			})
-			if rd == nil {
-				return
-			}
-			n++
-			okSlice := isSlice && (sl.Low == nil || isZero(sl.Low)) && sl.High != nil
-			if okSlice {
-				e, isE := sl.High.(*ssa.Extract)
-				okSlice = isE && e.Tuple == rd && e.Index == 0
-			}
-			// same iteration: the read dominates the write and no loop header lies strictly between them
-			okSlice = okSlice && dominatesInstr(rd, call)
-			c.check("C09.B3", name+"|writes exactly the bytes just read", call.Pos(), okSlice,
-				"the relay must write buf[0:n] with n the count returned by the read of the same buffer in this iteration; anything else drops, duplicates or invents bytes")
-			// short write / write error leave with an error
-			var nw, ew ssa.Value
-			for _, r := range *call.Referrers() {
-				if e, ok := r.(*ssa.Extract); ok {
-					if e.Index == 0 {
-						nw = e
-					} else {
-						ew = e
-					}
-				}
-			}
-			var nr ssa.Value
-			for _, r := range *rd.Referrers() {
-				if e, ok := r.(*ssa.Extract); ok && e.Index == 0 {
-					nr = e
-				}
-			}
-			shortChecked, errChecked := false, false
-			eachInstr(f, func(j ssa.Instruction) {
-				b, ok := j.(*ssa.BinOp)
-				if !ok {
-					return
-				}
-				if (b.Op == token.NEQ || b.Op == token.EQL) && nw != nil && nr != nil && ((b.X == nr && b.Y == nw) || (b.X == nw && b.Y == nr)) {
-					shortChecked = true
-				}
-				if b.Op == token.NEQ && ew != nil && b.X == ew && isNilConst(b.Y) {
-					errChecked = true
-				}
-			})
-			c.check("C09.B3", name+"|short or failed writes end the relay with an error", call.Pos(), shortChecked && errChecked,
-				"a write that fails or accepts fewer bytes than were read must end the copy (error): continuing silently loses the remainder")
-		})
-		if n == 0 {
-			c.undecided("C09.B3", name+"|relay write", "no Write of a buffer filled by Read found")
-		}
-	}
-	checkRelay(cb, "proxy/tcp.copyBuffer")
-	if ws != nil {
-		checkRelay(ws, "proxy.newWSHandler$1 (handshake relay)")
-	}
-}
-
-func isZero(v ssa.Value) bool {
-	k, ok := constInt(v)
-	return ok && k == 0
-}
-
-// runC09B6: a Peek on a default-sized bufio.Reader cannot return more than its buffer (4096 bytes):
-// a computed Peek length makes the handler fail for larger first records.
-func runC09B6(c *Ctx, f *ssa.Function) {
-	eachInstr(f, func(i ssa.Instruction) {
-		call, ok := i.(*ssa.Call)
-		if !ok || calleeName(&call.Call) != "(*bufio.Reader).Peek" {
-			return
-		}
-		n, isK := constInt(call.Call.Args[1])
-		sized := false
-		derives(call.Call.Args[0], func(v ssa.Value) bool {
-			if _, ok := isCallTo(v, "bufio.NewReaderSize"); ok {
-				sized = true
-			}
-			return false
-		})
-		c.check("C09.B6", fnKey(f)+"|Peek length within the reader's buffer", call.Pos(), (isK && n <= 4096) || sized,
-			"bufio.Reader.Peek(n) fails with ErrBufferFull when n exceeds the reader's buffer (4096 bytes for bufio.NewReader): peeking a computed length (e.g. a whole ClientHello) rejects every connection whose first record is larger; read it with io.ReadFull and replay it instead")
-	})
-}
-
-func runC09B4(c *Ctx, f *ssa.Function) {
-	wph := c.fn("proxy/tcp", "WriteProxyHeader")
-	if !c.need("C09.B4", wph, "tcp.WriteProxyHeader") {
-		return
-	}
-	// the upstream connection: result of the dial
-	var out ssa.Value
-	eachInstr(f, func(i ssa.Instruction) {
-		if call, ok := i.(*ssa.Call); ok && strings.HasPrefix(calleeName(&call.Call), "net.Dial") {
-			for _, r := range *call.Referrers() {
-				if e, ok := r.(*ssa.Extract); ok && e.Index == 0 {
-					out = e
-				}
-			}
-		}
-	})
-	if out == nil {
-		c.undecided("C09.B4", fnKey(f)+"|upstream connection", "dial result not found")
-		return
-	}
-	var hdr []ssa.Instruction
-	eachInstr(f, func(i ssa.Instruction) {
-		if staticCalleeIs(i, wph) {
-			hdr = append(hdr, i)
-		}
-	})
-	okHdr := len(hdr) > 0
-	for _, h := range hdr {
-		guard := false
-		for _, ft := range factsAt(h.Block()) {
-			if _, isF := fieldOf(ft.Cond, "route.Target", "ProxyProto"); isF && ft.Truth {
-				guard = true
-			}
-		}
-		if !guard || stripIface(callCommon(h).Args[0]) != out {
-			okHdr = false
-		}
-	}
-	c.check("C09.B5", fnKey(f)+"|PROXY protocol header supported", f.Pos(), okHdr,
-		"every tunnel handler must write the PROXY header to the upstream on the Target.ProxyProto edge like its siblings; an upstream configured for the PROXY protocol otherwise parses the client's first bytes as the header")
-	// anything that writes to the upstream
-	var writers []ssa.Instruction
-	eachInstr(f, func(i ssa.Instruction) {
-		switch x := i.(type) {
-		case *ssa.Call:
-			if x.Call.IsInvoke() && x.Call.Method.Name() == "Write" && x.Call.Value == out {
-				writers = append(writers, i)
-			}
-		case *ssa.Go:
-			if len(x.Call.Args) >= 1 && stripIface(x.Call.Args[0]) == out {
-				writers = append(writers, i)
-			}
-		}
-	})
-	for _, h := range hdr {
-		bad := false
-		for _, w := range writers {
-			if pathAvoiding(w, h, nil) {
-				bad = true
-			}
-		}
-		c.check("C09.B4", fnKey(f)+"|PROXY header is the first write on the upstream", h.Pos(), !bad,
-			"the PROXY line must precede every other byte on the upstream connection; a write that can run before it makes the upstream misparse the stream")
-	}
-	// consuming reads before the tunnel starts
-	starts := copyStartsOf(f)
-	eachInstr(f, func(i ssa.Instruction) {
-		call, ok := i.(*ssa.Call)
-		if !ok {
-			return
-		}
-		n := calleeName(&call.Call)
-		if n != "io.ReadFull" && n != "io.ReadAtLeast" {
-			return
-		}
-		buf := call.Call.Args[1]
-		replay := false
-		var rp ssa.Instruction
-		for _, w := range writers {
-			if wc, ok := w.(*ssa.Call); ok && wc.Call.Args[0] == buf && dominatesInstr(call, w) {
-				replay, rp = true, w
-			}
-		}
-		if replay {
-			for _, s := range starts {
-				if !dominatesInstr(rp, s.g) {
-					replay = false
-				}
-			}
-		}
-		c.check("C09.B4", fnKey(f)+"|bytes consumed before the tunnel are replayed whole", call.Pos(), replay,
-			"bytes read from the client to make the routing decision (the captured ClientHello) are gone from the connection; the very same buffer must be written to the upstream, whole, before the copy goroutines start — the upstream must see the client's stream from its first byte")
-	})
-}
-
-func runC09W1(c *Ctx) {
-	sp := c.spkg("proxy/tcp")
-	if sp == nil {
-		return
-	}
-	t := sp.Type("conn")
-	if t == nil {
-		c.undecided("C09.W1", "proxy/tcp.conn|wrapper type", "not found")
-		return
-	}
-	st, _ := t.Type().Underlying().(*types.Struct)
-	inner := ""
-	for k := 0; st != nil && k < st.NumFields(); k++ {
-		if typeStr(st.Field(k).Type()) == "net.Conn" {
-			inner = st.Field(k).Name()
-		}
-	}
-	n := 0
-	for _, mn := range []string{"Read", "Write", "Close"} {
-		f := c.method("proxy/tcp", "conn", mn)
-		if f == nil {
-			continue
-		}
-		n++
-		ok := false
-		eachInstr(f, func(i ssa.Instruction) {
-			call, isC := i.(*ssa.Call)
-			if !isC || !call.Call.IsInvoke() || call.Call.Method.Name() != mn {
-				return
-			}
-			if _, isInner := fieldOf(call.Call.Value, "tcp.conn", inner); !isInner {
-				return
-			}
-			same := len(call.Call.Args) == len(f.Params)-1
-			for k := range call.Call.Args {
-				if same && call.Call.Args[k] != f.Params[k+1] {
-					same = false
-				}
-			}
-			if !same {
-				return
-			}
-			// results handed back unchanged
-			ret := true
-			eachInstr(f, func(j ssa.Instruction) {
-				r, isR := j.(*ssa.Return)
-				if !isR {
-					return
-				}
-				for k, res := range r.Results {
-					if len(r.Results) == 1 {
-						if res != call {
-							ret = false
-						}
-					} else if e, isE := res.(*ssa.Extract); !isE || e.Tuple != call || e.Index != k {
-						ret = false
-					}
-				}
-			})
-			if ret {
-				ok = true
-			}
-		})
-		c.check("C09.W1", "(*proxy/tcp.conn)."+mn+"|forwards unchanged to the wrapped connection", f.Pos(), ok,
-			"the timeout wrapper sits in every tunnel: "+mn+" must pass its argument to the wrapped connection as received and return its results unchanged")
-	}
-	c.atLeast("C09.W1", "Read/Write/Close of the tcp.conn wrapper", n, 3)
 }
